@@ -20,7 +20,7 @@ def run(ctx):
         raise common.NoVerdict("unexpected vector counts %d %d" % (len(vecs), len(mvecs)))
     cases, meta = [], []
     for v in vecs:
-        cases.append(dict(id=len(cases), edges=v["edges"], main=v["main"], mods=["a", "b", "c"], extra="")); meta.append(("graph", v))
+        cases.append(dict(id=len(cases), edges=v["edges"], main=v["main"], mods=["a", "b", "c"], extra="", more=True)); meta.append(("graph", v))
     for v in mvecs:
         cases.append(dict(id=len(cases), edges=v["edges"], main=v["main"], mods=["a", "b", "d"], extra="")); meta.append(("missing", v))
     # export / read-only / selective-import probes (a -> b chain)
@@ -68,8 +68,15 @@ def run(ctx):
                 rep("error-for-ok", "spec: loads %s without error; interpreter: error [%s] %s" % (v["trace"], r.get("code"), r.get("msg"))); continue
             if bodies != want_bodies:
                 rep("body-order", "bodies ran %s, spec %s" % (bodies, want_bodies))
-            probe = d[-1] if d else []
             mods = c["mods"]
+            if c.get("more"):
+                # three more probe rows: sibling call from a handler block, building the module's type, a method of that type
+                for row, (what, ok) in zip(d[-3:], (("handler", lambda m: SHORT[m] + "-help"), ("construct", lambda m: SHORT[m]), ("type-method", lambda m: SHORT[m] + "-help"))):
+                    want_row = [ok(m) if m in v["main"] else "ERR" for m in mods]
+                    if row != want_row:
+                        rep("home-module-" + what, "probe (%s) gave %s, spec %s: code of an imported module resolves its own module's names everywhere" % (what, row, want_row))
+                d = d[:-3]
+            probe = d[-1] if d else []
             want_probe = [(SHORT[m] + "-help") if m in v["main"] else "ERR" for m in mods]
             if probe != want_probe:
                 bad = next((mods[i] for i in range(len(mods)) if i < len(probe) and probe[i] != want_probe[i]), "?")
@@ -88,7 +95,7 @@ def run(ctx):
                rule="all 512 digraphs (self-loops included) on three imported modules x all 15 ordered non-empty import lists of the main file (7680 runs), plus all digraphs on two "
                     "modules with a missing third one (576): TLC runs the depth-first load machine (invariants: body at most once, imports before body, circular error iff a cycle "
                     "is reachable - against an independent transitive-closure definition) and emits body trace and result; each vector becomes a directory of .zn files with "
-                    "1-3 path segments, executed with LoadFile().Execute: body order/multiplicity, error code 63/60, and a probe per module (an imported method must be able to "
-                    "call its own module's helper; modules not imported by main are not visible); plus 8 export/read-only/selective-import probe programs",
+                    "1-3 path segments, executed with LoadFile().Execute: body order/multiplicity, error code 63/60, and four probes per module (an imported method, a handler block of an imported method, a body "
+                    "constructing the module's type and a method of that type must all be able to use their own module's names; modules not imported by main are not visible); plus 8 export/read-only/selective-import probe programs",
                spec_outcomes=outcomes)
     return cov, ["import order inside a module is alphabetical (the generator writes it that way)", "thorough tier identical to quick (the space is already exhaustive for 3 modules)"]
